@@ -8,6 +8,7 @@ import (
 )
 
 var checks = map[string]func(*core.Ctx) int{
+	"C01": core.CheckC01,
 	"C02": core.CheckC02,
 	"C04": core.CheckC04,
 	"C05": core.CheckC05,
